@@ -25,6 +25,8 @@ for log in sys.argv[1:]:
             var = {'a': 'i', 'b': 'j'}.get(var, var)          # sixth wave: <prop>_i
         if 'seedout7' in d:
             var = {'a': 'j', 'b': 'k'}.get(var, var)          # seventh wave: <prop>_j
+        if 'seedout8' in d:
+            var = {'a': 'k', 'b': 'l'}.get(var, var)          # eighth wave: <prop>_k
         if 'seedout3' in d:
             var = {'a': 'e', 'b': 'f'}.get(var, var)          # third wave: <prop>_e, <prop>_f
         name = f'{prop}_{var}'
